@@ -561,14 +561,21 @@ def stepCommitA (s : Sys) (th : Tid) : Option Sys :=
           | none => none)
 
 def stepPanic (s : Sys) (th : Tid) : Option Sys :=
-    let t := getTh s th
-    if !t.begun || t.committed then none
-    else (match kCommitAPanic s.k th t.ops with
-          | some k' =>
-              let s1 := unlockAll (withK s k') th
-              let p := getTh s1 (parent th)
-              some (setTh s1 (parent th) { p with res := some .panic })
-          | none => none)
+  let t := getTh s th
+  if th.2 == 0 && t.cmd != some Cmd.compact then
+    -- `Builder::new`: `catalog.get_table(tid).unwrap()` for a statement whose table was dropped
+    -- between binding and building the executors
+    (match t.cmd, t.isBound, t.btab with
+     | some _, true, some tb =>
+         if s.tables.contains tb then none else some (setTh s th { t with res := some .panic })
+     | _, _, _ => none)
+  else if !t.begun || t.committed then none
+  else (match kCommitAPanic s.k th t.ops with
+        | some k' =>
+            let s1 := unlockAll (withK s k') th
+            let p := getTh s1 (parent th)
+            some (setTh s1 (parent th) { p with res := some .panic })
+        | none => none)
 
 def stepAppend (s : Sys) (_th : Tid) : Option Sys :=
   some s
